@@ -11,7 +11,7 @@ SPEC = {
              "valid responses are real HMAC-SHA256 values computed by the harness from the challenge it read back. quick: every "
              "history of length <= 3 over a 34-event alphabet (2 connections x {first-connect, phase-1 A/B, phase-2 A/B valid-latest, "
              "stale, foreign key, foreign connection's challenge, junk, tunnel-type phase 1/2, malformed} + ban/unban/blacklist/expire/blacklist a CIDR range/permanent ban/lapsed temporary ban/whitelist/restart = a new IPManager loading the lists from the same storage/failing credential generation) "
-             "plus every history of length <= 3 over a 12-event alphabet on one connection for a usable client A and a client V whose stored secret is unusable (sealed under another master key / empty ciphertext / legacy plaintext field only; phase 1 A/V, phase 2 naming V with the empty key, V's ciphertext bytes as key, V's legacy plaintext, A's key, V's original secret, phase 2 naming A valid / empty key, tunnel type, re-sealing events), plus 12000 seeded random histories of length <= 14 over 2-3 connections sharing or not sharing addresses, 1-3 clients, "
+             "plus every history of length <= 3 over a 12-event alphabet on one connection for a usable client A and a client V whose stored secret is unusable (sealed under another master key / empty ciphertext / legacy plaintext field only; phase 1 A/V, phase 2 naming V with the empty key, V's ciphertext bytes as key, V's legacy plaintext, A's key, V's original secret, phase 2 naming A valid / empty key, tunnel type, re-sealing events), plus 33 (thorough: 72) long histories of 63…300 (thorough: …2049) phase-1 requests spread over connections with a recorded response replayed at several offsets (challenge values must never repeat), plus 12000 seeded random histories of length <= 14 over 2-3 connections sharing or not sharing addresses, 1-3 clients, "
              "unknown ids, id 0, deleted clients, clients with unusable stored secrets, degenerate key terms, limiter bursts 1-3, refills, unknown connections; thorough: length <= 4 "
              "exhaustive plus 60000 random. After every event the harness reads the response written, IsAuthenticated/GetClientID/"
              "pending challenge of every connection, GetControlConnectionByClientID of every client, IsBanned/IsAllowed of every address; "
@@ -23,8 +23,8 @@ SPEC = {
         "skeletons of HandleHandshake, handleFirstConnection, handleChallengePhase1/2, VerifyResponse, ComputeResponse, GenerateChallenge, "
         "session handleHandshake, UpdateAuth, removeConnectionLocked, RecordFailure and the source text of their if-conditions (compared by decide)",
         "differential harness /verif/harness/c03 (fresh real stack per history; shim security.VerifRefillIP drops a limiter bucket)",
-        "crypto is symbolic in the model: secrets pairwise distinct, server nonces never repeat (the harness numbers challenge strings by "
-        "first occurrence, so a repeated challenge would show), HMAC-SHA256 collision free; AES-GCM storage of the secret = a state usable | undecryptable | empty | legacy; Decrypt succeeds only for usable",
+        "crypto is symbolic in the model: secrets pairwise distinct, server nonces never repeat — observed, not only assumed: the harness numbers challenge strings by "
+        "first occurrence and `holds` (H4) rejects a challenge value that was handed out before, HMAC-SHA256 collision free; AES-GCM storage of the secret = a state usable | undecryptable | empty | legacy; Decrypt succeeds only for usable",
     ],
     "assumptions": [
         "IPManager whitelist: exact entries only (whitelisted ranges not exercised); CIDR blacklist entries are /24 ranges of two addresses each; only the IPManager is re-created on restart; no blacklist entry expires inside a history",
